@@ -3,13 +3,13 @@ import GMGProofs.Lemmas.CycleToy
 /-!
 # C13 — a solver object can be reused
 
-Property theorems only.  Model: `Cycle.solve` (`GMGModel/Solve.lean`, the code after the `fix:` commits:
+Property theorems only.  Model: `MGCycle.solve` (`GMGModel/Solve.lean`, the code after the `fix:` commits:
 statistics cleared and the COMBINED smoother switch re-armed at the top of `solve()`).
 Every `V`, `R`, `Ops V`, `NormOps V R`, every configuration (all extrapolation modes, with and without FMG,
 all cycle kinds), all object states.
 -/
 namespace C13
-open Cycle
+open MGCycle
 
 variable {V R : Type}
 
